@@ -365,6 +365,20 @@ func DrawEnv(t *rapid.T, opt EnvOpt) *Env {
 		}
 		if !opt.NoBlankFields && rapid.IntRange(0, 3).Draw(t, "blankfield") == 0 {
 			bf := Field{Name: "_", Type: B(pick(t, "blanktype", []string{"int", "string", "uint8", "bool"}))}
+			if rapid.IntRange(0, 2).Draw(t, "blankref") == 0 {
+				// a blank field whose type is not comparable: its value takes no part in anything, its type
+				// still decides whether == applies to the struct
+				switch rapid.IntRange(0, 3).Draw(t, "blankrefkind") {
+				case 0:
+					bf.Type = SliceOf(B("int"))
+				case 1:
+					bf.Type = MapOf(B("string"), B("int"))
+				case 2:
+					bf.Type = PtrTo(B("int"))
+				default:
+					bf.Type = ArrayOf(2, SliceOf(B("string")))
+				}
+			}
 			at := rapid.IntRange(0, len(d.Fields)).Draw(t, "blankat")
 			d.Fields = append(d.Fields[:at], append([]Field{bf}, d.Fields[at:]...)...)
 		}
